@@ -14,6 +14,7 @@ observations with its own arithmetic.
 """
 import json
 import logging
+import os
 import sys
 
 from common import Check, hx
@@ -26,7 +27,7 @@ import nfc.tag.tt2
 import nfc.tag.tt3
 import nfc.tag.tt4
 
-from sim.c08_tags import AnyClf, Loop, T2Any, T1Any, T3Any, T4Any, Scripted, LIMIT
+from sim.c08_tags import AnyClf, Loop, T2Any, T1Any, T3Any, T4Any, T4Adv, Scripted, LIMIT
 
 logging.disable(logging.CRITICAL)
 
@@ -148,7 +149,7 @@ def mk_t3(c):
     b = unhex(c['blocks'])
     return T3Any([b[i:i + 16] for i in range(0, len(b), 16)], idm=unhex(c['idm']), pmm=unhex(c['pmm']),
                  sys_in_sensf=c['sys_in_sensf'], sensf=None if c.get('sensf') is None else unhex(c['sensf']),
-                 max_read=c['max_read'], beyond=c['beyond'], poll=c['poll'])
+                 max_read=c['max_read'], beyond=c['beyond'], poll=c['poll'], poll_extra=unhex(c.get('poll_extra', '')))
 
 
 def mk_t4(c):
@@ -283,6 +284,8 @@ class Run(object):
     def flush(self):
         if not self.lines:
             return
+        if os.environ.get('C08_DUMP'):
+            open(os.environ['C08_DUMP'], 'a').write('\n'.join(self.lines) + '\n')
         out = self.mr.run(self.lines)
         for fn, o in zip(self.after, out):
             fn(o)
@@ -302,7 +305,7 @@ class Run(object):
                     break
         if bad:
             if bad[1] == 'hang':
-                ck.violation('%s:unbounded:%s' % (kind, bad[0]), '%s: %s sends more than %d commands (does not stop)' % (kind, bad[0], LIMIT), case)
+                ck.violation('%s:unbounded:%s' % (kind, bad[0]), '%s: %s sends more commands than the guard of this case allows (%d): it does not stop' % (kind, bad[0], case.get('limit', LIMIT)), case)
             else:
                 ck.violation('%s:exception:%s:%s' % (kind, bad[0], bad[1]), '%s: %s raises %s' % (kind, bad[0], bad[1]), case)
         return bad is not None
@@ -542,11 +545,14 @@ def run_t3(run, c, sim=None, kind='t3'):
 
 # ---- Type 4 ---------------------------------------------------------------------
 class DepRec(object):
-    """records what IsoDepInitiator.exchange() returns / raises to Type4Tag (APDU level)"""
+    """records what IsoDepInitiator.exchange() returns / raises to Type4Tag (APDU level) and, per call, the block number
+    it started with and the clf.exchange() outcomes it consumed (block level)"""
 
-    def __init__(self, dep):
+    def __init__(self, dep, clf):
         self.dep = dep
+        self.clf = clf
         self.log = []
+        self.blocks = []      # (pni before, command, first log index, last log index, result, pni after)
 
     def __getattr__(self, k):
         return getattr(self.dep, k)
@@ -554,13 +560,45 @@ class DepRec(object):
     def exchange(self, command, timeout=None):
         if command is None:
             return self.dep.exchange(command, timeout)
+        pn, n0 = self.dep.pni, len(self.clf.log)
         try:
             r = self.dep.exchange(command, timeout)
         except nfc.tag.tt4.Type4TagCommandError as e:
             self.log.append((bytes(command), 'fail:%d' % e.errno))
+            self.blocks.append((pn, bytes(command), n0, len(self.clf.log), 'err TagCommandError:%d' % e.errno, self.dep.pni))
             raise
         self.log.append((bytes(command), 'ok:' + (bytes(r).hex() if r is not None else '')))
+        self.blocks.append((pn, bytes(command), n0, len(self.clf.log), 'ok:' + bytes(r).hex(), self.dep.pni))
         return r
+
+
+W_MAX = 65538         # fixes/c08-19: S(WTX) requests + chained response blocks accepted within one exchange
+
+
+def wild(r):
+    """an answer that starts like S(WTX) or has the chaining bit set"""
+    return r.startswith('rx:') and len(r) >= 5 and (int(r[3:5], 16) & 0xFE == 0xF2 or int(r[3:5], 16) & 0x10 != 0)
+
+
+def monitor_blocks(run, kind, c, dep, clf, sample):
+    """block level: every exchange() stops within the bound of the theorem - (C+1) * (len cmd + 2 + wild answers) + C
+    clf.exchange calls, C = retry budget + 2, and accepts at most W_MAX wild answers; and it agrees with the model"""
+    ck = run.ck
+    C = dep.n_retry_nak + 2
+    for pn, cmd, n0, n1, res, pn1 in dep.blocks:
+        outs = [r for _, r in clf.log[n0:n1]]
+        nw = sum(1 for r in outs if wild(r))
+        if n1 - n0 > (C + 1) * (len(cmd) + 2 + min(nw, W_MAX + 1)) + C or nw > W_MAX + 1:
+            ck.violation(kind + ':unbounded:blocks', '%s: one exchange() sent %d blocks (%d waiting time extensions / chained blocks)'
+                         % (kind, n1 - n0, nw), c)
+        if sample:
+            # the block number is compared after a successful exchange only (after a failed one reader and card are out of step anyway)
+            want = '%s n=%d' % (res, n1 - n0) + (' pni=%d' % pn1 if res.startswith('ok') else '')
+
+            def chk(out, want=want):
+                if not (out == want or (not want.startswith('ok') and out.rsplit(' pni=', 1)[0] == want)):
+                    run.mismatch(kind + '-isodep', c, want, out)
+            run.model('isodep %d %d %d %s %s' % (dep.miu, dep.n_retry_nak, pn, hexarg(cmd), ','.join(outs) or '-'), chk)
 
 
 def fwt_of(fwi):
@@ -618,7 +656,7 @@ def run_t4(run, c, sim=None, kind='t4'):
     ck = run.ck
     sim = sim or mk_t4(c)
     ms, mr_ = c.get('max_send', 256), c.get('max_recv', 256)
-    clf, tag, act = do_activate(sim, c['stop'], c['mode'], max_send=ms, max_recv=mr_)
+    clf, tag, act = do_activate(sim, c['stop'], c['mode'], max_send=ms, max_recv=mr_, limit=c.get('limit', LIMIT))
     first = clf.log[0][1] if clf.log else 'to'
     typeb = sim.target().brty.endswith('B')
     if typeb:
@@ -635,13 +673,14 @@ def run_t4(run, c, sim=None, kind='t4'):
                     first[3:], act if tag is None else 'MIU %d FWT %f' % (tag._dep.miu, tag._dep.fwt), fsc, fwi), c)
     o = None
     if tag is not None:
-        tag._dep = DepRec(tag._dep)
+        tag._dep = DepRec(tag._dep, clf)
         o = read_twice(tag, clf)
     run.exceptions(kind, c, act, o)
     ck.count(kind)
     if tag is None or o is None:
         ck.case((kind, json.dumps(c, sort_keys=True)), True)
         return
+    monitor_blocks(run, kind, c, tag._dep, clf, c.get('isodep', False))
     log = tag._dep.log
     # ---- monitor
     area = t4_area(c) if kind == 't4' else 65536
@@ -690,7 +729,7 @@ def run_t4(run, c, sim=None, kind='t4'):
 def run_raw(run, c):
     tech = c['tech']
     sim = mk_raw(c)
-    c = dict(c, stop=None, mode='timeout')
+    c = dict(c, stop=None, mode='timeout', isodep=True)
     if tech == 't3':
         return run_t3(run, c, sim=sim, kind='raw-t3')
     if tech == 't4':
@@ -767,7 +806,17 @@ def run_disp(run, c):
     ck.case(('disp', c['sens'], c['sel']), True)
 
 
-RUNNERS = {'t2': run_t2, 't1': run_t1, 't3': run_t3, 't4': run_t4, 'raw': run_raw, 'disp': run_disp}
+def run_adv(run, c):
+    """a Type 4 card that turns adversarial at the ISO-DEP block level after c['good'] good answers"""
+    sim = T4Adv(mk_t4(c['inner']), c['good'], c['advmode'], c.get('byte', 2))
+    c2 = dict(c['inner'])
+    c2.update(kind='adv', inner=c['inner'], good=c['good'], advmode=c['advmode'], byte=c.get('byte', 2), limit=c['limit'],
+              # 65538 chained blocks WITH data: the extracted model appends to the response list block by block (quadratic) - monitor only
+              isodep=c['advmode'] != 'chain', stop=None, mode='timeout')
+    run_t4(run, c2, sim=sim, kind='t4adv-' + c['advmode'])
+
+
+RUNNERS = {'adv': run_adv, 't2': run_t2, 't1': run_t1, 't3': run_t3, 't4': run_t4, 'raw': run_raw, 'disp': run_disp}
 
 
 # ------------------------------------------------------------------------------ generators
@@ -920,7 +969,8 @@ def gen_t3(rng):
         beyond = 'status'          # a bounded but very long read (up to 65535 commands): see the two corpus cases
     return {'kind': 't3', 'blocks': blocks.hex(), 'idm': idm.hex(), 'pmm': pmm.hex(), 'sensf': None,
             'sys_in_sensf': rng.random() < 0.6, 'max_read': rng.choice([15, 15, 15, 12, 4, 1, 255]),
-            'beyond': beyond, 'poll': rng.random() < 0.85, 'stop': None, 'mode': 'timeout'}
+            'beyond': beyond, 'poll': rng.random() < 0.85, 'stop': None, 'mode': 'timeout',
+            'poll_extra': rng.choice(['', '', '', '', '12fc', '0003', '00', '12fc00'])}
 
 
 AID2 = 'd2760000850101'
@@ -1083,6 +1133,8 @@ def main():
                       'Type 4: the theorems are about the reader above IsoDepInitiator.exchange (whole APDUs answered or failed); '
                       'the block layer is covered by C12 (termination for a responder that uses at most W waiting time extensions / '
                       'chained blocks per exchange) plus the WTX-without-WTXM repair modelled in TagReadAnyB.pcd_absorb_any']
+    ck.assumptions.append('command-count guard: an access that sends more than 400 blocks (3 * 65638 for the cards that request waiting '
+                          'time / chain for ever, which the reader follows for 65538 blocks by design) is reported as not stopping')
     ck.coq(gen=[], targets=['Proofs/TagSafeAct.vo', 'Proofs/TagSafeTlv.vo', 'Proofs/TagSafeCmd.vo', 'Proofs/TagSafeLoad.vo', 'Proofs/TagSafeIface.vo', 'Proofs/TagSafeBlk.vo', 'Proofs/TagSafeDep.vo'], props='C08')
     mr = ck.model()
     if mr is None:
@@ -1187,11 +1239,27 @@ def main():
     run.flush()
     mark('activation')
 
+    # ---- adversarial ISO-DEP cards: after 0..k good answers every block is answered the same way, for ever
+    inners = [act_case_t4(ats='067577810280'), act_case_t4(ats='0570774102'), act_case_t4(typeb=True)]
+    for advmode in ('rack_other', 'rack_same', 'rnak', 'empty', 'one', 'wtx', 'chain', 'chain0'):
+        long_run = advmode in ('wtx', 'chain', 'chain0')
+        goods = ([0, 5] if quick else [0, 1, 3, 6, 8]) if long_run else range(0, 12)
+        for good in goods:
+            for inner in (inners[:1] if long_run else inners):
+                bytes_ = [rng.getrandbits(8) for _ in range(3)] + [0x02, 0x03, 0xA2, 0xF2, 0x12] if advmode == 'one' else [2]
+                for b in (bytes_ if good in (0, 4) else bytes_[:1]):
+                    go({'kind': 'adv', 'inner': inner, 'good': good, 'advmode': advmode, 'byte': b,
+                        'limit': 3 * (W_MAX + 100) if long_run else 400})
+    run.flush()
+    mark('adversarial')
+
     # ---- readers: random images and mutations of valid layouts, with a stop point after every command
     n_img = {'t2': 700, 't1': 500, 't3': 700, 't4': 500} if quick else {'t2': 9000, 't1': 6000, 't3': 9000, 't4': 6000}
     for kind, gen in (('t2', gen_t2), ('t1', gen_t1), ('t3', gen_t3), ('t4', gen_t4)):
         for i in range(n_img[kind]):
             c = gen(rng)
+            if kind == 't4':
+                c['isodep'] = rng.random() < 0.25      # also compare every exchange() at block level
             if c.get('beyond') == 'zeros' and kind in ('t2',) and rng.random() < (0.9 if quick else 0.5):
                 c['beyond'] = 'nak'
             go(c)
